@@ -133,6 +133,7 @@ class ObjExec(AbsExec):
         self.enum_members: dict[tuple[str, str], MObj] = {}
         self.decimals = Decimals(3)
         self.max_steps = 20_000_000
+        self.max_loop = 100_000  # iterations of one while loop (texts of a few hundred lines are read line by line)
         self.func_hooks: dict[str, Callable[..., Any]] = {}  # qualified function name -> model (instead of interpreting it)
         self.depth = 0
 
@@ -321,6 +322,24 @@ class ObjExec(AbsExec):
                 a = int(a)
             if isinstance(b, bool) and isinstance(a, (int, float)):
                 b = int(b)
+            env2 = dict(env)
+            env2["<l>"], env2["<r>"] = a, b
+            return super().ev(ast.copy_location(ast.BinOp(left=ast.Name(id="<l>", ctx=ast.Load()), op=e.op, right=ast.Name(id="<r>", ctx=ast.Load())), e), env2)
+        if isinstance(e, ast.Dict) and any(k is None for k in e.keys):
+            d: dict[Any, Any] = {}
+            for k, v in zip(e.keys, e.values):
+                if k is None:
+                    m = self.ev(v, env)
+                    if not isinstance(m, dict):
+                        raise Internal("TypeError", f"`{unparse(e)[:60]}`: ** of a value that is not a mapping", e)
+                    d.update(m)
+                else:
+                    d[self.ev(k, env)] = self.ev(v, env)
+            return d
+        if isinstance(e, ast.BinOp) and isinstance(e.op, ast.BitOr):
+            a, b = self.ev(e.left, env), self.ev(e.right, env)
+            if isinstance(a, dict) and isinstance(b, dict):
+                return {**a, **b}
             env2 = dict(env)
             env2["<l>"], env2["<r>"] = a, b
             return super().ev(ast.copy_location(ast.BinOp(left=ast.Name(id="<l>", ctx=ast.Load()), op=e.op, right=ast.Name(id="<r>", ctx=ast.Load())), e), env2)
@@ -628,8 +647,6 @@ class ObjExec(AbsExec):
                 env2[f"<k{k}>"] = v
                 kws.append(ast.keyword(arg=k, value=ast.Name(id=f"<k{k}>", ctx=ast.Load())))
             return super().call(ast.copy_location(ast.Call(func=e.func, args=names, keywords=kws), e), env2)
-        if isinstance(f, tuple) and len(f) == 3 and f[0] == "bound" and isinstance(f[1], str) and f[2] == "format":
-            raise self.unknown(e, "str.format")
         if isinstance(f, TypeV) or isinstance(f, Opaque):
             args, kw = self.arguments(e, env)
             h = self.func_hooks.get(f"ext:{f.name if isinstance(f, TypeV) else f.what}")
@@ -676,6 +693,40 @@ class ObjExec(AbsExec):
             else:
                 kw[k.arg] = self.ev(k.value, env)
         return args, kw
+
+    def str_format(self, template: str, args: list[Any], kw: dict[str, Any], e: ast.AST) -> str:
+        """`template.format(*args, **kw)`: replacement fields filled through the same formatting as f-strings (simple field names only)."""
+        import string
+
+        out: list[str] = []
+        auto = 0
+        try:
+            fields = list(string.Formatter().parse(template))
+        except ValueError:
+            raise Raised("ValueError", e) from None
+        for literal, field, spec, conv in fields:
+            out.append(literal)
+            if field is None:
+                continue
+            if field == "":
+                if auto >= len(args):
+                    raise Internal("IndexError", f"`{unparse(e)[:60]}`: replacement index out of range", e)
+                val = args[auto]
+                auto += 1
+            elif field.isdigit():
+                if int(field) >= len(args):
+                    raise Internal("IndexError", f"`{unparse(e)[:60]}`: replacement index out of range", e)
+                val = args[int(field)]
+            elif field.isidentifier():
+                if field not in kw:
+                    raise Internal("KeyError", f"`{unparse(e)[:60]}`: no argument {field}", e)
+                val = kw[field]
+            else:
+                raise self.unknown(e, "compound replacement field in str.format")
+            if spec and "{" in spec:
+                raise self.unknown(e, "nested replacement field in a format specification")
+            out.append(self.format_value(val, spec or "", False, conv or "", e))
+        return "".join(out)
 
     def isinstance_(self, v: Any, spec: Any, e: ast.AST) -> bool:
         if isinstance(spec, tuple) and not (len(spec) == 2 and spec[0] in ("builtin", "class") and isinstance(spec[1], str)):
@@ -726,7 +777,8 @@ class ObjExec(AbsExec):
         if name == "repr" and len(args) == 1:
             return self.to_repr(args[0], e)
         if name == "format" and len(args) == 2 and isinstance(args[1], str):
-            return self.format_value(args[0], args[1], False, "", e)
+            # the specification is a string value here: it is the library's number format when it spells the current decimals setting
+            return self.format_value(args[0], args[1], getattr(self, "_spec_from_decimals", False) or args[1] == f".{int(self.decimals)}f", "", e)
         if name == "float" and len(args) == 1:
             return self.to_number(args[0], e)
         if name == "int" and len(args) == 1:
@@ -926,7 +978,7 @@ class ObjExec(AbsExec):
                     raise Internal("TypeError", f"`{unparse(e)[:60]}`: sequence item is not a string ({type(bad[0]).__name__})", e)
                 return recv.join(items)
             if name == "format":
-                raise self.unknown(e, "str.format")
+                return self.str_format(recv, args, kw, e)
             if hasattr(str, name):
                 if not all(isinstance(a, (str, int, type(None), tuple)) for a in list(args) + list(kw.values())):
                     raise Internal("TypeError", f"`{unparse(e)[:60]}`", e)
